@@ -272,6 +272,22 @@ theorem step_inv {q q' : Quals} {op : QOp} {o : QOut} (hq : QInv q) (h : q.step 
     · rename_i q2 ht; simp at h; obtain ⟨_, rfl⟩ := h; exact tryFromIter_inv U QInv_nil ht
     · simp at h; obtain ⟨_, rfl⟩ := h; exact hq
     · simp [panic] at h
+  | tryInsertChecksum alg raw =>
+    simp only [Quals.step] at h
+    split at h
+    · simp at h; obtain ⟨_, rfl⟩ := h; exact hq
+    · simp [panic] at h
+    · split at h
+      · rename_i q2 hs
+        simp at h; obtain ⟨_, rfl⟩ := h
+        unfold Quals.insertTyped at hs
+        split at hs
+        · rename_i slot q3 hi
+          simp at hs; subst hs
+          exact insert_inv U hq hi
+        · simp [panic] at hs
+        · simp [panic] at hs
+      · simp at h
   | cloneFrom items =>
     simp only [Quals.step] at h
     split at h
@@ -460,6 +476,17 @@ theorem step_ok (q : Quals) (op : QOp) (h : docPanic q op = false) : ∃ r, q.st
     rcases tryFromIter_no_panic U items [] with ⟨q', hq'⟩ | ⟨e, he⟩
     · rw [hq']; exact ⟨_, rfl⟩
     · rw [he]; exact ⟨_, rfl⟩
+  | tryInsertChecksum alg raw =>
+    simp only [Quals.step]
+    have hp := toText_no_panic (Cksum.insertRaw U [] alg raw)
+    split
+    · exact ⟨_, rfl⟩
+    · rename_i site heq
+      rw [heq] at hp
+      simp [Res.isPanic] at hp
+    · have hck : isValidKey checksumKey = true := by decide
+      simp only [Quals.insertTyped, insert_valid U hck]
+      exact ⟨_, rfl⟩
   | cloneFrom items =>
     simp only [Quals.step]
     rcases tryFromIter_no_panic U items [] with ⟨q', hq'⟩ | ⟨e, he⟩
